@@ -73,8 +73,8 @@ pub fn gen_ell(rng: &mut Rng) -> Case {
     // thin ellipses centred on (or within 1e-12..1e-7 rad of) a pole whose major axis lies along a diagonal meridian pi/4 + k.pi/2 of a polar
     // base cell (the corner cells of the base cell have their centres on that meridian at every depth: a chain of cell centres exactly on the
     // major axis, where a quadratic-form point-in-ellipse test cancels); large ellipses at moderate depths
-    if rng.below(20) == 0 {
-      let d2 = 5 + rng.below(6) as u8; let a2 = if rng.coin() { rng.range(0.3, 1.5) } else { rng.range(1.2, 1.56) };
+    if rng.below(32) == 0 {
+      let d2 = 5 + rng.below(5) as u8; let a2 = if rng.coin() { rng.range(0.3, 1.5) } else { rng.range(1.2, 1.56) };
       let south = rng.coin(); let off = if rng.coin() { 0.0 } else { rng.log_uniform(1e-12, 1e-7) };
       let lat2 = if south { -PI / 2.0 + off } else { PI / 2.0 - off };
       let lon2 = if rng.coin() { 0.0 } else { rng.f() * TWO_PI };
@@ -84,7 +84,7 @@ pub fn gen_ell(rng: &mut Rng) -> Case {
       // half of them are not thin: b = r_k + f (a - r_k), f in 1e-8 .. 1e-6, r_k one of the per-depth bounding radii of the descent (the
       // "fully inside" test works on the ellipse shrunk by r_k: thin again, with cell centres exactly on its major axis)
       let mut cls = "thin-on-a-pole-along-a-diagonal-meridian";
-      if rng.coin() { let (a2, d2) = (rng.range(1.3, 1.56), 8 + rng.below(3) as u8);
+      if rng.coin() { let (a2, d2) = (rng.range(1.3, 1.56), 8 + rng.below(2) as u8);
         let ds = if cdshealpix::has_best_starting_depth(a2) { cdshealpix::best_starting_depth(a2) } else { 0 };
         if ds < d2 + ddq { if let Ok(arr) = catch(|| cdshealpix::largest_center_to_vertex_distances_with_radius(ds, d2 + ddq + 1, lon2, lat2, a2)) {
           let cands: Vec<f64> = arr.iter().cloned().filter(|&x| x < a2 * 0.5 && x > 0.0).collect();
